@@ -281,6 +281,12 @@ def run_ode(starting_state: np.ndarray,
         integration = RK45(
             fun=func_call, t0=0.0, y0=starting_state, t_bound=max_time,
             max_step=steps)
+        if func_state.min_error_t <= 0.0:
+            # The system or the controller is not OK already at t=0 (RK45
+            # evaluates the differential at the start when it is created).
+            # Nothing can be simulated; with a NaN differential at t=0, RK45
+            # would compute a NaN step size and `step()` would never return.
+            break
         is_finished: bool = False
 
         # perform the integration and collect all the points at which stuff
